@@ -249,12 +249,15 @@ Lemma bind_ok_inv : forall A B (o : outcome A) (f : A -> outcome B) b,
   bind o f = Ok b -> exists a, o = Ok a /\ f a = Ok b.
 Proof. intros A B o f b H. destruct o; cbn in H; try discriminate. eauto. Qed.
 
+Lemma ok_inj : forall A (a b : A), Ok a = Ok b -> a = b.
+Proof. intros A a b H. now inversion H. Qed.
+
 Lemma parse_headers_wf : forall h a d st',
   parse_headers false h a d st_init = Ok st' -> gen_wf allowed_keys st'.
 Proof.
   intros h a d st' H. unfold parse_headers in H.
   apply bind_ok_inv in H. destruct H as [st2 [H2 H]].
-  destruct (negb a); [discriminate|]. destruct (negb d); [discriminate|]. inversion H; subst st'. clear H.
+  destruct (negb a); [discriminate|]. destruct (negb d); [discriminate|]. apply ok_inj in H. subst st'.
   assert (Hg : m_gen st2 = []).
   { unfold parse_ct_charset in H2. destruct (is_empty (hget h hdr_content_type)).
     - inversion H2; subst. unfold parse_encoding.
@@ -298,7 +301,7 @@ Proof.
   apply bind_ok_inv in H. destruct H as [[st1 drained] [H1 H]].
   assert (G1 : m_gen st1 = m_gen s).
   { destruct (hvals (e_hdr p) hdr_content_type) as [|c0 [|c1 r]]; try (inversion H1; reflexivity).
-    inv_ok; try reflexivity. now apply Hsub. }
+    inv_ok; try reflexivity; apply Hsub; assumption. }
   rewrite <- G1. clear H1 G1.
   destruct (hvals (e_hdr p) hdr_content_disposition) as [|c cd].
   - inv_ok; reflexivity.
@@ -378,15 +381,15 @@ Lemma rerender_fields_nodup : forall st hf ht hc,
 Proof.
   intros st hf ht hc [Hn Hk]. unfold rerender_fields.
   set (K := sort_keys (gen_keys_at_render (map fst (m_gen st)))).
-  set (tail := if _ then [hdr_content_type] else if _ then [hdr_content_transfer_enc; hdr_content_type] else []).
+  match goal with |- NoDup (_ ++ _ ++ _ ++ _ ++ tail_fields ?m ?s) => generalize m as multi; generalize s as single end.
+  intros single multi.
   assert (HK : NoDup K).
   { subst K. eapply Permutation_NoDup; [symmetry; apply sort_keys_perm|]. now apply gen_keys_nodup. }
   assert (Hrest : NoDup ((if hf then [hdr_from] else []) ++ (if ht then [hdr_to] else []) ++
-                         (if hc then [hdr_cc] else []) ++ tail) /\
+                         (if hc then [hdr_cc] else []) ++ tail_fields multi single) /\
                   forall x, In x ((if hf then [hdr_from] else []) ++ (if ht then [hdr_to] else []) ++
-                                  (if hc then [hdr_cc] else []) ++ tail) -> In x writer_fields).
-  { subst tail. destruct hf, ht, hc;
-      repeat match goal with |- context [if ?c then _ else _] => destruct c end;
+                                  (if hc then [hdr_cc] else []) ++ tail_fields multi single) -> In x writer_fields).
+  { destruct hf, ht, hc, multi, single; cbn [tail_fields app];
       (split; [repeat constructor; cbn; intros F; repeat (destruct F as [F|F]; [vm_compute in F; discriminate|]); exact F
               | cbn; intros x F; repeat (destruct F as [F|F]; [subst; cbn; tauto|]); contradiction]). }
   destruct Hrest as [Hr1 Hr2].
